@@ -106,6 +106,9 @@ def serialised_names(sf):
             continue
         m = re.search(r'rename_all\s*=\s*"([^"]+)"', it.attrs)
         rule = m.group(1) if m else None
+        for ca in re.findall(r"#\[serde\((.*?)\)\]", it.attrs, re.S):
+            if re.sub(r'\brename_all\s*=\s*"[^"]*"', "", ca).replace(",", "").strip():
+                raise LostAnchor("C19: container attribute not understood on %s: serde(%s)" % (it.name, ca))
         if rule not in (None, "snake_case"):
             raise LostAnchor("C19: rename_all = %s on %s not understood" % (rule, it.name))
         body = it.src[it.body_open + 1:it.end - 1]
@@ -120,7 +123,11 @@ def serialised_names(sf):
                     mm = re.search(r'\brename\s*=\s*"([^"]+)"', txt)
                     if mm:
                         pend = mm.group(1)
-                    if re.search(r"\b(skip|skip_serializing|flatten|alias)\b", txt):
+                    # every serde attribute of a member must be one the obligations account for
+                    inner = txt[txt.index("(") + 1:txt.rindex(")")] if "(" in txt else ""
+                    rest = re.sub(r'\b(default|skip_serializing_if|rename)\s*=\s*"[^"]*"', "", inner)
+                    rest = re.sub(r"\bdefault\b", "", rest)
+                    if rest.replace(",", "").strip():
                         raise LostAnchor("C19: serde attribute not understood on a member of %s: %s" % (it.name, txt))
                 k = e + 1
                 continue
